@@ -634,6 +634,137 @@ Proof.
       rewrite (other_in_kind _ _ H). apply N.ltb_ge. lia.
 Qed.
 
+(* the whole of rule 8, for every graph: every incoming port the operation has, whose kind is not StateOrder or
+   ControlFlow, has exactly one link.
+   DEVIATION: validate_port only demands `links.peek().is_some()` for an incoming port (at least one link; a second link
+   into the same port is not looked at); Validity.v demands exactly one.  Stricter, hence on the safe side for C01. *)
+Lemma in_upto : forall n i, In i (upto n) -> (i < N.of_nat n)%N.
+Proof.
+  induction n as [|n IH]; intros i H; [contradiction|]. cbn [upto] in H. apply in_app_or in H as [H|[<-|[]]].
+  - apply IH in H. lia.
+  - lia.
+Qed.
+Lemma upto_forallb_le : forall (P : N -> bool) m n, n <= m ->
+  forallb P (upto n) = forallb (fun i => negb (i <? N.of_nat n)%N || P i) (upto m).
+Proof.
+  induction m as [|m IH]; intros n H.
+  - replace n with O by lia. reflexivity.
+  - destruct (Nat.eq_dec n (S m)) as [->|Hne].
+    + apply forallb_pointwise_in. intros i Hi. apply in_upto in Hi. apply N.ltb_lt in Hi. now rewrite Hi.
+    + cbn [upto]. rewrite forallb_app. rewrite <- IH by lia. cbn [forallb].
+      replace (N.of_nat m <? N.of_nat n)%N with false by (symmetry; apply N.ltb_ge; lia).
+      cbn. now rewrite andb_true_r.
+Qed.
+Lemma other_in_pos : forall o, (0 <? snd (other_in o))%N = true -> exists k, fst (other_in o) = Some k.
+Proof. intros o H. destruct o; cbn in H |- *; try discriminate H; eauto. Qed.
+Lemma kind_in_some : forall o off, (off <? count_in o)%N = true -> exists k, kind_in o off = Some k.
+Proof.
+  intros o off H. unfold kind_in. rewrite H.
+  destruct (off <? lenN (val_in o))%N eqn:E1.
+  - destruct (nthN_lt_some _ _ _ E1) as (t & ->). cbn. eauto.
+  - apply N.ltb_ge in E1. apply N.ltb_lt in H. unfold count_in, base_in in H.
+    destruct (static_in o) as [k|] eqn:Es; cbn [is_some andb b2N] in *.
+    + destruct (off =? lenN (val_in o))%N eqn:E2; [eauto|]. apply N.eqb_neq in E2.
+      apply other_in_pos. apply N.ltb_lt. lia.
+    + apply other_in_pos. apply N.ltb_lt. lia.
+Qed.
+Theorem r_inputs_once_matches : forall g,
+  r_inputs_once g =
+  forallb (fun x => (fst x =? 0)%N ||
+     forallb (fun off => match kind_in (n_op (snd x)) off with
+                         | Some k => smem (kname k) rs_unconnected_ok_kinds || (links_into (redges g) (fst x) off =? 1)%N
+                         | None => true
+                         end) (upto (N.to_nat (count_in (n_op (snd x)))))) (indexed (g_nodes g)).
+Proof.
+  intros g. unfold r_inputs_once. cbv zeta. apply forallb_pointwise. intros x. f_equal.
+  rewrite (upto_forallb_le _ (N.to_nat (count_in (n_op (snd x))))) by (unfold count_in; lia).
+  apply forallb_pointwise_in. intros off Hoff. apply in_upto in Hoff. rewrite N2Nat.id in *.
+  apply N.ltb_lt in Hoff. destruct (kind_in_some _ _ Hoff) as (k & Hk). rewrite Hk.
+  rewrite (inputs_must_connect_matches _ _ _ Hk). now rewrite negb_involutive.
+Qed.
+
+(* the whole of rule 9, for every graph: every outgoing port the operation has, whose kind is a non-copyable value
+   (EdgeKind::is_linear) or ControlFlow (validate_port's outgoing_is_linear), has exactly one link (Rust: connected, and
+   TooManyConnections on a second link). *)
+Definition r_linear (tys : list tyinfo) (k : pkind) : bool :=
+  match k with
+  | KValue t => negb (ty_copy tys t)
+  | _ => smem (kname k) rs_linear_out_extra_kinds
+  end.
+Lemma upto_forallb_split : forall (P : N -> bool) m n, n <= m ->
+  forallb P (upto m) = forallb P (upto n) && forallb (fun i => (i <? N.of_nat n)%N || P i) (upto m).
+Proof.
+  induction m as [|m IH]; intros n H.
+  - replace n with O by lia. reflexivity.
+  - destruct (Nat.eq_dec n (S m)) as [->|Hne].
+    + replace (forallb (fun i => (i <? N.of_nat (S m))%N || P i) (upto (S m))) with true; [now rewrite andb_true_r|].
+      symmetry. apply forallb_forall. intros i Hi. apply in_upto in Hi. apply N.ltb_lt in Hi. now rewrite Hi.
+    + cbn [upto]. rewrite !forallb_app. rewrite (IH n) by lia. cbn [forallb].
+      replace (N.of_nat m <? N.of_nat n)%N with false by (symmetry; apply N.ltb_ge; lia).
+      cbn [orb]. now rewrite <- !andb_assoc.
+Qed.
+Lemma rt_index_from_app : forall A (l r : list A) k, index_from (l ++ r)%list k = (index_from l k ++ index_from r (k + lenN l)%N)%list.
+Proof.
+  induction l as [|a l IH]; intros r k; cbn [index_from app].
+  - f_equal. unfold lenN. cbn. lia.
+  - rewrite IH. cbn [app]. do 3 f_equal. unfold lenN. cbn [List.length]. lia.
+Qed.
+Lemma forallb_indexed_upto : forall A (f : N * A -> bool) (l : list A),
+  forallb f (indexed l) =
+  forallb (fun i => match nthN l i with Some t => f (i, t) | None => true end) (upto (List.length l)).
+Proof.
+  intros A f l. induction l as [|a l IH] using rev_ind; [reflexivity|].
+  unfold indexed in *. rewrite rt_index_from_app, app_length, Nat.add_1_r. cbn [upto index_from].
+  rewrite !forallb_app, IH. cbn [forallb]. f_equal.
+  - apply forallb_pointwise_in. intros i Hi. apply in_upto in Hi. unfold nthN.
+    rewrite nth_error_app1 by lia. reflexivity.
+  - unfold nthN. rewrite Nat2N.id, nth_error_app2 by lia. rewrite Nat.sub_diag. cbn.
+    reflexivity.
+Qed.
+Lemma rest_linear : forall tys o (L : N -> bool),
+  match o with Block _ rows _ _ => forallb L (upto (List.length rows)) | _ => true end =
+  forallb (fun off => (off <? lenN (val_out o))%N ||
+                      match kind_out o off with Some k => negb (r_linear tys k) || L off | None => true end)
+          (upto (N.to_nat (count_out o))).
+Proof.
+  intros tys o L.
+  destruct o;
+    try (symmetry; apply forallb_forall; intros off _; unfold kind_out, count_out, base_out;
+         cbn [static_out other_out val_out df_sig is_some b2N fst snd andb];
+         destruct (off <? _)%N; cbn [orb]; try reflexivity;
+         repeat match goal with |- context [if ?c then _ else _] => destruct c end; reflexivity).
+  (* Block *)
+  assert (E : N.to_nat (count_out (Block ins sum_rows others sumty)) = List.length sum_rows)
+    by (unfold count_out, base_out; cbn [val_out df_sig static_out other_out is_some b2N snd]; unfold lenN;
+        cbn [List.length]; lia).
+  rewrite E.
+  apply forallb_pointwise_in. intros off Hoff. apply in_upto in Hoff.
+  unfold kind_out, count_out, base_out. cbn [static_out other_out val_out df_sig is_some b2N fst snd andb].
+  change (lenN (@nil tyid)) with 0%N.
+  assert (E1 : (off <? 0)%N = false) by (apply N.ltb_ge; lia). rewrite E1.
+  assert (E2 : (off <? 0 + 0 + lenN sum_rows)%N = true) by (apply N.ltb_lt; unfold lenN; lia). rewrite E2.
+  reflexivity.
+Qed.
+Theorem r_linear_once_matches : forall tys g,
+  r_linear_once tys g =
+  forallb (fun x => (fst x =? 0)%N ||
+     forallb (fun off => match kind_out (n_op (snd x)) off with
+                         | Some k => negb (r_linear tys k) || (links_from (redges g) (fst x) off =? 1)%N
+                         | None => true
+                         end) (upto (N.to_nat (count_out (n_op (snd x)))))) (indexed (g_nodes g)).
+Proof.
+  intros tys g. unfold r_linear_once. cbv zeta. apply forallb_pointwise. intros x. f_equal.
+  set (o := n_op (snd x)). set (L := fun off => (links_from (redges g) (fst x) off =? 1)%N).
+  rewrite (upto_forallb_split _ (N.to_nat (count_out o)) (List.length (val_out o)))
+    by (unfold count_out, base_out, lenN; lia).
+  f_equal.
+  - rewrite forallb_indexed_upto. apply forallb_pointwise_in. intros off Hoff. apply in_upto in Hoff.
+    unfold kind_out. fold (lenN (val_out o)) in Hoff. apply N.ltb_lt in Hoff. rewrite Hoff.
+    destruct (nthN (val_out o) off) as [t|]; [|reflexivity]. cbn [option_map r_linear fst snd].
+    now rewrite negb_involutive.
+  - rewrite (rest_linear tys o L). reflexivity.
+Qed.
+
 (* ================================================================== summaries used by props/C01.v *)
 Theorem tables_cover :
   (forall o k, In k (rnames o) -> krow k = Some (vrow o)) /\
